@@ -473,6 +473,8 @@ func runC17(c *Ctx, r *Report) {
 	c05PoolTypestate(c, r, "C17-c")
 	c17SubContext(c, r)
 	c17NegativeIndex(c, r)
+	poolFullInit(c, r, "C17-c/pool-full-init")
+	c17DoneOnlyOnMiss(c, r, "C17-b/done-only-on-miss")
 	// generator loops bounded: loop obligations of funcsRange.go
 	if bce, err := bceList(c); err != nil {
 		r.Undecided("C17-d/bce", "compiler", "listing", "-", err.Error())
